@@ -43,7 +43,8 @@ ASSUMPTIONS = [
     'invalid tokens) -- EXCEPT legacy tickets with user_data \'userid_type:unicode\' and valid tokens, which earlier releases '
     'issued for text user ids: they must yield that text (spec_legacy_unicode)',
     'cookie text comes out of WebOb\'s strict UTF-8 decoder, so it holds Unicode scalar values only (no lone surrogates)',
-    'REMOTE_ADDR is a dotted-decimal IPv4 address with parts <= 255 or an IPv6 text containing ":" (latin-1)',
+    'REMOTE_ADDR is a dotted-decimal IPv4 address with parts <= 255 or an IPv6 text containing ":" (latin-1), including '
+    'IPv6 notations that embed a dotted quad (::ffff:a.b.c.d, 64:ff9b::a.b.c.d)',
     'int() digit strings stay below CPython\'s 4300-digit limit',
     'userid passed to remember() is int, str or bytes, or an object of any other type (modelled by its str(), computed '
     'with str() in the harness): the property names int / text / bytes only, so for other types the spec demands only that '
